@@ -216,6 +216,10 @@ func runOne(body Body, prefix []int, trace bool, worker int) (x *Exec, v Verdict
 				infra = d.Error()
 				return
 			}
+			if d, ok := r.(interface{ MCInfra() string }); ok {
+				infra = d.MCInfra()
+				return
+			}
 			// A panic inside the code under test is an observation.
 			st := string(debug.Stack())
 			v = Verdict{Violation: fmt.Sprintf("panic: %v", r), Sig: "panic:" + panicSite(st), Detail: trimStack(st)}
